@@ -189,6 +189,7 @@ def _run_cl(case):
     lin = M.is_linear(spec)
     cfg = "%s|%s%s%s" % ("geo" if geo else "mgvi", "mirror" if mirror else "nomirror",
                          "|pe" if pe else "", "|napprox" if napprox else "")
+    kcfg = "geo" if geo else "mgvi"
     ic = ift.GradientNormController(tol_abs_gradnorm=1e-13, iteration_limit=300)
     H = ift.StandardHamiltonian(b["lh"], ic, prior_sampling_dtype=np.float64)
     kw = dict(mirror_samples=mirror, napprox=napprox)
@@ -229,7 +230,7 @@ def _run_cl(case):
     except Exception as e:   # noqa
         if isinstance(e, RuntimeError) and ("tape exhausted" in str(e) or "number of draws depends" in str(e)):
             return bad("number of normal draws depends on the drawn values: %s" % e,
-                       finding_key="cl|SampledKLEnergy|draw-count-not-deterministic|" + cfg)
+                       finding_key="cl|SampledKLEnergy|draw-count-not-deterministic|" + kcfg)
         if napprox == 1 and isinstance(e, (ValueError, NotImplementedError)) and str(e):
             return skip("napprox=1 rejected with an explanatory error")
         why = "napprox=%d" % napprox if napprox else cfg
@@ -237,21 +238,21 @@ def _run_cl(case):
         return bad("SampledKLEnergy(%s, %s position) raised %r in %s" % (
             why, "Field" if spec["field"] else "MultiField", e, _where(e)),
             finding_key="cl|SampledKLEnergy|raises|%s|%s@%s" % (
-                "napprox=1" if napprox == 1 else ("napprox|" + dom if napprox else cfg + "|" + dom), type(e).__name__, _where(e)),
+                "napprox=1" if napprox == 1 else ("napprox|" + dom if napprox else kcfg + "|" + dom), type(e).__name__, _where(e)),
             detail=dict(model=spec["name"]))
     stats = dict(basis_runs=r["n"] + 3, excitation_dim=r["n"])
-    det = dict(model=spec["name"], ndraw=r["n"], log=r["log"][:12])
+    det = dict(model=spec["name"], cfg=cfg, ndraw=r["n"], log=r["log"][:12])
     n = ref.n
     if struct["n"] != nsmp or struct["nloc"] != nsmp:
         return bad("sample list has %d samples, expected %d" % (struct["n"], nsmp),
-                   finding_key="cl|%s|sample-count" % cfg, detail=det)
+                   finding_key="cl|%s|sample-count" % kcfg, detail=det)
     if r["off"].size != nsmp * n + (nsmp * nS if geo else 0) or not struct["doms_ok"]:
-        return bad("samples do not live on the domain of the position", finding_key="cl|%s|sample-domain" % cfg, detail=det)
+        return bad("samples do not live on the domain of the position", finding_key="cl|%s|sample-domain" % kcfg, detail=det)
     if not np.array_equal(struct["mean"], p):
-        return bad(".samples.mean is not the expansion point", finding_key="cl|%s|mean-not-position" % cfg, detail=det)
+        return bad(".samples.mean is not the expansion point", finding_key="cl|%s|mean-not-position" % kcfg, detail=det)
     if r["n"] == 0 or r["n"] % ns:
         return bad("%d scripted normals for %d independent samples" % (r["n"], ns),
-                   finding_key="cl|%s|draw-count" % cfg, detail=det)
+                   finding_key="cl|%s|draw-count" % kcfg, detail=det)
     blk = r["n"] // ns
     X0 = r["off"][:nsmp * n].reshape(nsmp, n)
     Lx = r["L"][:nsmp * n].reshape(nsmp, n, r["n"])
@@ -260,7 +261,7 @@ def _run_cl(case):
     d0 = float(np.abs(X0 - p[None]).max())
     if (d0 != 0. and not geo) or d0 > 1e-12:
         return bad("sample at zero excitation differs from the expansion point by %.3g" % d0,
-                   finding_key="cl|%s|nonzero-mean" % cfg, detail=det)
+                   finding_key="cl|%s|nonzero-mean" % kcfg, detail=det)
     Mfull = ref.metric(p)
     MSS = Mfull[np.ix_(S, S)]
     Minv = np.linalg.inv(MSS)
@@ -269,7 +270,7 @@ def _run_cl(case):
     # ---- point-estimated keys: exact zero residual
     if notS.size and np.abs(Lx[:, notS, :]).max(initial=0.) != 0.:
         return bad("point-estimated key has a non-zero residual (%.3g)" % np.abs(Lx[:, notS, :]).max(),
-                   finding_key="cl|%s|pe-residual-nonzero" % cfg, detail=det)
+                   finding_key="cl|%s|pe-residual-nonzero" % kcfg, detail=det)
     worst = 0.
     for i in range(nsmp):
         j = i // mult
@@ -277,24 +278,24 @@ def _run_cl(case):
         own[j * blk:(j + 1) * blk] = True
         if np.abs(Lx[i][:, ~own]).max(initial=0.) != 0.:
             return bad("sample %d depends on the excitation of another sample (not independent)" % i,
-                       finding_key="cl|%s|samples-not-independent" % cfg, detail=det)
+                       finding_key="cl|%s|samples-not-independent" % kcfg, detail=det)
         A = Lx[i][np.ix_(S, np.where(own)[0])]
         if lin or not geo:
             if rx[i].max(initial=0.) > tol * _scale(Minv):
                 return bad("residual is not linear in the excitation (%.3g): not Gaussian" % rx[i].max(),
-                           finding_key="cl|%s|nonlinear-in-excitation" % cfg, detail=det)
+                           finding_key="cl|%s|nonlinear-in-excitation" % kcfg, detail=det)
             dev = float(np.abs(A @ A.T - Minv).max())
             worst = max(worst, dev)
             if not dev <= tol * _scale(Minv):
                 return bad("covariance of sample %d differs from the inverse metric M(pos)^-1 by %.3g "
                            "(|M^-1|max %.3g; %s model, response %s)" % (i, dev, np.abs(Minv).max(), _mclass(spec), _rs(spec)),
-                           finding_key="cl|%s|cov-mismatch|%s" % (cfg, "linear" if lin else "nonlinear"), detail=det)
+                           finding_key="cl|%s|cov-mismatch|%s" % (kcfg, "linear" if lin else "nonlinear"), detail=det)
         if mirror and i % 2 == 1 and (lin or not geo):
             dm = float(np.abs(Lx[i] + Lx[i - 1]).max())
             lim = (TOL_MIN if geo else 16 * EPS) * _scale(np.abs(Lx[i]) + np.abs(p)[:, None])
             if dm > lim:
                 return bad("mirrored sample is not the negative of its partner (%.3g)" % dm,
-                           finding_key="cl|%s|mirror-not-negative" % cfg, detail=det)
+                           finding_key="cl|%s|mirror-not-negative" % kcfg, detail=det)
     if geo and not lin:
         Y0 = r["off"][nsmp * n:].reshape(nsmp, nS)
         Ly = r["L"][nsmp * n:].reshape(nsmp, nS, r["n"])
@@ -302,23 +303,23 @@ def _run_cl(case):
         sc = _scale(MSS)
         if np.abs(Y0).max(initial=0.) > 1e-12:
             return bad("geoVI: g(sample) - g(pos) at zero excitation is %.3g" % np.abs(Y0).max(),
-                       finding_key="cl|%s|geo-nonzero-mean" % cfg, detail=det)
+                       finding_key="cl|%s|geo-nonzero-mean" % kcfg, detail=det)
         for i in range(nsmp):
             j = i // mult
             own = np.zeros(r["n"], dtype=bool)
             own[j * blk:(j + 1) * blk] = True
             if ry[i].max(initial=0.) > TOL_MIN * sc:
                 return bad("geoVI: g(sample) - g(pos) is not linear in the excitation (%.3g)" % ry[i].max(),
-                           finding_key="cl|%s|geo-y-not-gaussian" % cfg, detail=det)
+                           finding_key="cl|%s|geo-y-not-gaussian" % kcfg, detail=det)
             A = Ly[i][:, own]
             dev = float(np.abs(A @ A.T - MSS).max())
             worst = max(worst, dev)
             if not dev <= TOL_MIN * sc:
                 return bad("geoVI: covariance of g(sample) - g(pos) differs from the metric M(pos) by %.3g" % dev,
-                           finding_key="cl|%s|geo-y-cov-mismatch" % cfg, detail=det)
+                           finding_key="cl|%s|geo-y-cov-mismatch" % kcfg, detail=det)
             if mirror and i % 2 == 1 and np.abs(Ly[i] + Ly[i - 1]).max() > TOL_MIN * sc:
                 return bad("geoVI: mirrored sample does not solve g(x) - g(pos) = -y (%.3g)" % np.abs(Ly[i] + Ly[i - 1]).max(),
-                           finding_key="cl|%s|geo-mirror" % cfg, detail=det)
+                           finding_key="cl|%s|geo-mirror" % kcfg, detail=det)
     # ---- sample average = expansion point (mirrored), on the generic probe tape
     if mirror and (lin or not geo):
         xi = M.generic_tape(r["n"])
@@ -327,7 +328,7 @@ def _run_cl(case):
         lim = (TOL_MIN if geo else 16 * EPS) * _scale(np.abs(Lx).sum(axis=2))
         if da > lim:
             return bad("average of the mirrored samples differs from the expansion point by %.3g" % da,
-                       finding_key="cl|%s|average-not-position" % cfg, detail=det)
+                       finding_key="cl|%s|average-not-position" % kcfg, detail=det)
     det["cov_err"] = worst
     stats.update(mirrored=int(mirror), invariant_keys=int(bool(set(pe) & set(const))), rankdef=int(_rs(spec) != "full"))
     cfg2 = "%s%s%s" % ("geo" if geo else "mgvi", "|pe" if pe else "", "|napprox" if napprox else "")
